@@ -8,11 +8,11 @@
    length start at the same RefSeq base; the hypothesis cannot be dropped (witness).
    Proved in addition (end of this file): the MAJOR stage specification of C02 (MajorSpec: score, admissibility, the enumeration of
    admissible combinations) commutes with every such transport.
-   NOT proved: the same for the candidate filter, the copy-number stage and the minor stage (their models are not transported
-   here); beyond the hypothesis, and for the implementation as a whole, harness/c13.py decides by a two-build differential on
+   and the normalised region depths, the only input of the copy-number stage, are the same in both coordinate systems.
+   NOT proved: the same for the candidate filter and the minor stage (their models are not transported here); beyond the hypothesis, and for the implementation as a whole, harness/c13.py decides by a two-build differential on
    stage results and scores (shipped genes hg19/hg38, generated opposite-strand databases). *)
 From Aldy Require Import Base Consts Transport TransportProofs.
-From Aldy Require Filter MajorModel MajorSpec MajorTransportProofs.
+From Aldy Require Filter MajorModel MajorSpec MajorTransportProofs Norm NormProofs.
 Open Scope Z_scope.
 
 Theorem C13_stage_equivariant : forall (tr : variant -> variant) (vars : list variant),
@@ -131,3 +131,27 @@ Example C13_major_example :
   map (fun x : MajorSpec.comb => (Qred (MajorSpec.sc x), snd (fst x), snd x)) (MajorSpec.enum_all MajorTransportProofs.mt_cands [([49], 2)] MajorTransportProofs.mt_fm MajorTransportProofs.mt_obs MajorTransportProofs.mt_hcov 21 (1 # 10)) =
     [(2%Q, [([49], 0); ([50], 2)], []); (0%Q, [([49], 1); ([50], 1)], []); ((221 # 10)%Q, [([49], 2); ([50], 0)], [(100, MajorTransportProofs.mt_AG)])].
 Proof. exact MajorTransportProofs.mt_example. Qed.
+
+(* ================================================================= the copy-number signal (Norm.v, the object of the C07 theorems)
+   The structure stage consumes region names and normalised depths only (CnModel/CnSpec have no coordinates), so its build
+   independence is the build independence of the depths: moving every read position through [f] and using the second build's own
+   region table and neutral region gives the SAME result, as soon as a position lies in a region iff its image lies in the
+   corresponding region.  Both concrete moves qualify: another offset on the same strand, and the opposite strand. ---- *)
+Theorem C13_region_depths_equivariant : forall (f : Z -> Z) nv (regions regions' : list (Norm.nregion * Q)) cn cn' dg dn,
+  (forall p, In p (map fst dn) -> Norm.in_range (fst cn') (snd cn') (f p) = Norm.in_range (fst cn) (snd cn) p) ->
+  Forall2 (fun rp rp' => Norm.nr_gene (fst rp') = Norm.nr_gene (fst rp) /\ Norm.nr_name (fst rp') = Norm.nr_name (fst rp) /\ snd rp' = snd rp /\
+                         forall p, In p (map fst dg) ->
+                           Norm.in_range (Norm.nr_start (fst rp')) (Norm.nr_end (fst rp')) (f p) =
+                           Norm.in_range (Norm.nr_start (fst rp)) (Norm.nr_end (fst rp)) p)
+          regions regions' ->
+  Norm.normalize nv regions' cn' (NormProofs.move f dg) (NormProofs.move f dn) = Norm.normalize nv regions cn dg dn.
+Proof. exact NormProofs.normalize_moved. Qed.
+Goal True. idtac "ASSUME C13_region_depths_equivariant". Abort.
+Print Assumptions C13_region_depths_equivariant.
+
+Theorem C13_region_moves : forall off top s e p,
+  Norm.in_range (s + off) (e + off) (p + off) = Norm.in_range s e p /\
+  Norm.in_range (top - e + 1) (top - s + 1) (top - p) = Norm.in_range s e p.
+Proof. intros. split; [apply NormProofs.in_range_shift | apply NormProofs.in_range_mirror]. Qed.
+Goal True. idtac "ASSUME C13_region_moves". Abort.
+Print Assumptions C13_region_moves.
